@@ -1,6 +1,6 @@
 from numpy import linspace, arctan, sqrt, pi, append, argmin, argmax, interp
 from numpy import sin, cos, array, tan, arcsin, vstack
-from scipy.optimize import bisect, fsolve
+from scipy.optimize import bisect, brentq, fsolve
 import matplotlib.pyplot as plt
 
 class SetupRiemannProblem(object):
@@ -204,6 +204,17 @@ class SetupRiemannProblem(object):
         self.bottom_star_vals,self.top_star_vals=bottom_star_vals,top_star_vals
 
 
+    def fan_pressure(self, state, p_star, turning):
+        # pressure inside a fan at which the flow has turned by 'turning': bracketed
+        # between the star and the upstream pressure, so that the value at a point
+        # does not depend on the other points of the request
+        f = lambda x: self.expansion_states(x, state)[0] - turning
+        fa, fb = f(p_star), f(state[0])
+        if fa * fb > 0.:
+            return p_star if abs(fa) < abs(fb) else state[0]
+        return brentq(f, p_star, state[0], xtol=1.e-15 * state[0])
+
+
     def assign_lineout_vals(self, xs, ys):
         xy_thetas_rad = [arctan(ys[ii] / x) for ii, x in enumerate(xs)]
         xy_thetas_rad = array(xy_thetas_rad)
@@ -236,7 +247,7 @@ class SetupRiemannProblem(object):
             if (self.morphology[0] == 'R'):
                 if (angles['BR'][0]<vals[2]<angles['BR'][1]):
                     this_angle = vals[2] - angles['BR'][0]
-                    p_low = fsolve(lambda x: self.expansion_states(x, bottom_state)[0] + this_angle, p_low)[0]
+                    p_low = self.fan_pressure(bottom_state, p_star, -this_angle)
                     d, r, M = self.expansion_states(p_low, bottom_state)
                     sie = p_low / r / (gB - 1.)
                     c = sqrt(gB * p_low / r)
@@ -252,7 +263,7 @@ class SetupRiemannProblem(object):
                     vals[3:] = top_star_vals
                 elif (angles['TR'][0]<vals[2]<angles['TR'][1]):
                     this_angle = vals[2] - angles['TR'][1]
-                    p_high = fsolve(lambda x: self.expansion_states(x, top_state)[0] - this_angle, p_high)[0]
+                    p_high = self.fan_pressure(top_state, p_star, this_angle)
                     d, r, M = self.expansion_states(p_high, top_state)
                     sie = p_high / r / (gT - 1.)
                     c = sqrt(gT * p_high / r)
